@@ -305,6 +305,7 @@ func stateOfBoot(o []uint64) []uint64 {
 
 // events decoded from the input (kind + fields), aligned with the observations
 type nsEvent struct {
+	short                          bool // InstallSnapshot: fewer bytes on the wire than Size says
 	kind                           uint64
 	term, id, ad, li, lt, transfer uint64
 }
@@ -337,6 +338,7 @@ func nsEvents(in []uint64) []nsEvent {
 			cfg, p = decSrvs(ev, p+6)
 			_ = cfg
 			nd := int(ev[p+1])
+			e.short = ev[p+2+nd] != 0
 			p += 2 + nd + 1
 		case 5, 6, 7, 8, 9:
 			p++
